@@ -46,10 +46,11 @@ def jobs(tier):
     J.append(seq(len=8, keys=2, hmap=1, alpha_seq=1, nresize=2, flags=3, count_commit_order=0, init=8, nosettle=1, workers=8))
     J.append(seq("1,0,0,0", len=4 if q else 5, keys=2, hmap=1, flags=3, count_commit_order=1, nresize=3, workers=8))
     # the same enumeration with the table bound to real flavors
-    # partitioned resize with more helper threads than the default two CPUs give (4 CPUs: every level of 4+ buckets is split in four)
-    J.append(Job("lfht", "seq", "0,0,0,0", dict(len=3 if q else 4, keys=4, hmap=1, alpha_seq=1, nresize=12, min_partition_order=0),
+    # partitioned resize with more helper threads than the default two CPUs give (4 CPUs: every level of 4+ buckets is split in four);
+    # two operations only: every partitioned level creates four threads and vrt runs at most 16 per execution
+    J.append(Job("lfht", "seq", "0,0,0,0", dict(len=2, keys=4, hmap=1, alpha_seq=1, nresize=12, min_partition_order=0),
                  {"VRT_NCPUS": 4}, workers=8))
-    J.append(Job("lfht", "seq", "0,0,0,0", dict(len=2 if q else 3, keys=4, hmap=1, alpha_seq=1, nresize=12, min_partition_order=0, big=1),
+    J.append(Job("lfht", "seq", "0,0,0,0", dict(len=2, keys=4, hmap=1, alpha_seq=1, nresize=12, min_partition_order=0, big=1),
                  {"VRT_NCPUS": 3}, workers=8))
     for b, env in REAL:
         rp = dict(qs_attempts=1, wait_attempts=1)
